@@ -366,14 +366,16 @@ JS_DEPENDENCY_PLACEHOLDER = f'<script name="{JS_PLACEHOLDER_NAME}"></script>'
 COMPONENT_DEPS_COMMENT = "<!-- _RENDERED {data} -->"
 
 # E.g. `<!-- _RENDERED table,123,a92ef298,bd002c3 -->`
-COMPONENT_COMMENT_REGEX = re.compile(rb"<!--\s+_RENDERED\s+(?P<data>[\w\-,/]+?)\s+-->")
+# NOTE: The component class name can be any string (e.g. non-ASCII identifier, or a class made with `type()`),
+#       so we match anything except whitespace. Mind that this is a BYTES regex, where `\w` is ASCII-only.
+COMPONENT_COMMENT_REGEX = re.compile(rb"<!--\s+_RENDERED\s+(?P<data>[^\s]+?)\s+-->")
 # E.g. `table,123,a92ef298,bd002c3`
 # - comp_cls_hash - Cache key of the component class that was rendered
 # - id - Component render ID
 # - js - Cache key for the JS data from `get_js_data()`
 # - css - Cache key for the CSS data from `get_css_data()`
 SCRIPT_NAME_REGEX = re.compile(
-    rb"^(?P<comp_cls_hash>[\w\-\./]+?),(?P<id>[\w]+?),(?P<js>[0-9a-f]*?),(?P<css>[0-9a-f]*?)$"
+    rb"^(?P<comp_cls_hash>[^\s,]+?),(?P<id>[\w]+?),(?P<js>[0-9a-f]*?),(?P<css>[0-9a-f]*?)$"
 )
 # E.g. `data-djc-id-a1b2c3`
 MAYBE_COMP_ID = r'(?: data-djc-id-\w{6}="")?'
